@@ -51,6 +51,10 @@ CHECKS = {
    technique='exhaustive enumeration of small synthetic datasets (all cell assignments over a value alphabet) x all table-boundary deviates, encoder-side tables as reference model',
    text='Every assignment of a 4-value alphabet to the cells of the kinematic triangle (n=2,3; n=4 thorough) plus shaped larger tables, written with the repository\'s own encoder, is loaded by the real decoder and sampler; every c.d.f. line is compared with the encoder-side table, and both sampling methods are driven over every table boundary (exact and +-1e-9/1e-3), mid points and tails, checking domain, cell membership, monotonicity and the exported event.',
    note='Trusted: resources/data/dbd_gA/tools/mkocdfdata.py as the documented encoder (imported, not copied); datasets with emin+emax <= Qbb.'),
+ 'C05': dict(level='exploration', ref='DESIGN.md §2 C05', engine='c05',
+   technique='complete enumeration of the finite catalogues (README, list files, dispatch literals) with set equality, plus deviation-bounded exhaustive differential runs name-through-generator vs own scheme function',
+   text='README appendix 1, the resource list files (parsed independently and through the library) and the dispatch literals of genbbsub.cc are enumerated completely and compared as sets per category (plus the mode table); every name of the union is initialised and shot; for each of the 69 published background names the event obtained through decay0_generator is compared bit for bit (and in deviates consumed) with the nuclide\'s own scheme function plus exactly the documented daughter, for the default stream and every single forced deviate position over a 15-value grid.',
+   note='Trusted: the name -> scheme-function table written from the README; double-beta schemes are bound by C02.'),
 }
 NOT_YET = {
 }
@@ -94,6 +98,7 @@ def main():
             {'name': 'c10', 'path': 'checks/c10.cc', 'serves_properties': ['C10'], 'kind_free_text': 'MDL product enumerator with geometric invariants'},
             {'name': 'c16', 'path': 'checks/c16.cc', 'serves_properties': ['C16'], 'kind_free_text': 'kernel contract grids'},
             {'name': 'c14', 'path': 'checks/c14.cc', 'serves_properties': ['C14'], 'kind_free_text': 'gA dataset enumerator and sampler grid'},
+            {'name': 'c05', 'path': 'checks/c05.cc', 'serves_properties': ['C05'], 'kind_free_text': 'catalogue enumerator and name-vs-scheme differential'},
             {'name': 'd0ref', 'path': 'tools/f2cxx.py', 'serves_properties': ['C01', 'C02', 'C06'], 'kind_free_text': 'reference model generated from resources/code/decay0/decay0_2020-04-20.for'},
         ],
         'checks': checks,
